@@ -1,6 +1,7 @@
 #!/usr/bin/env python3
 """Development-time: run every seeded change against the quick check of its property (scratch copies
-of /repo) and write seeded/REGRESSION.json.  usage: regress_seeded.py [workers]"""
+of /repo) and write seeded/REGRESSION.json.  usage: regress_seeded.py [workers [name-regex]]
+(with a name-regex only the matching changes run and the result goes to seeded/REGRESSION-partial.json)"""
 import glob, json, os, subprocess, sys, time
 from concurrent.futures import ThreadPoolExecutor
 os.chdir("/verif")
@@ -8,6 +9,11 @@ jobs = []
 for m in sorted([m for m in glob.glob("seeded/*/meta.json") if "/_retired/" not in m]):
     md = json.load(open(m))
     jobs.append((os.path.basename(os.path.dirname(m)), md["property"], md.get("detected_by") or []))
+import re
+FILTER = re.compile(sys.argv[2]) if len(sys.argv) > 2 else None
+if FILTER:
+    jobs = [j for j in jobs if FILTER.search(j[0])]
+OUT = "seeded/REGRESSION-partial.json" if FILTER else "seeded/REGRESSION.json"
 def run(j):
     name, prop, det = j
     props = [prop]
@@ -28,4 +34,4 @@ with ThreadPoolExecutor(int(sys.argv[1]) if len(sys.argv) > 1 else 3) as ex:
     for r in ex.map(run, jobs):
         res.append(r)
         print(r, flush=True)
-        json.dump(res, open("seeded/REGRESSION.json", "w"), indent=1)
+        json.dump(res, open(OUT, "w"), indent=1)
